@@ -57,12 +57,13 @@ class Recorder(torch.nn.Module):
     encoded in float64, so an arg value that needs more than 24 significant bits stays exact.
     params=False: a module without parameters and buffers (dropout only): predict then takes the
     dtype from X and must hand X over uncast."""
-    def __init__(self, width, kind, heads, params=True, out3d=False):
+    def __init__(self, width, kind, heads, params=True, oforms=None):
         super().__init__()
         if params:
             self.bn = torch.nn.BatchNorm1d(width, eps=0.0)
         self.drop = torch.nn.Dropout(0.5)
-        self.kind, self.heads, self.params, self.out3d = kind, heads, params, out3d
+        self.kind, self.heads, self.params = kind, heads, params
+        self.oforms = oforms or ['2d'] * max(heads, 1)     # per output: '1d' (batch,), '2d', '3d'
         self.log = []
 
     def forward(self, X, *args):
@@ -71,11 +72,16 @@ class Recorder(torch.nn.Module):
         x = X.reshape(X.shape[0], -1)
         x = self.drop(self.bn(x)) if self.params else self.drop(x.double())
         z = torch.cat([x.double()] + [a.reshape(a.shape[0], -1).double() for a in args], dim=1)
-        if self.out3d:
-            z = z.reshape(z.shape[0], z.shape[1], 1)
+        def shaped(j):
+            f = self.oforms[j]
+            if f == '1d':       # one scalar per example: (j+1) * first entry of x_i, shape (batch,)
+                return z[:, 0] * float(j + 1)
+            y = z * float(j + 1)
+            return y.reshape(y.shape[0], y.shape[1], 1) if f == '3d' else y
+
         if self.kind == 'tensor':
-            return z
-        outs = [z * float(j + 1) for j in range(self.heads)]
+            return shaped(0)
+        outs = [shaped(j) for j in range(self.heads)]
         return tuple(outs) if self.kind == 'tuple' else outs
 
 
@@ -159,6 +165,17 @@ def out_exps(inp):
     return e
 
 
+def oforms_of(inp):
+    k = 1 if inp['kind'] == 'tensor' else inp['heads']
+    if 'oforms' in inp:
+        return list(inp['oforms'])[:k] + ['2d'] * max(0, k - len(inp['oforms']))
+    return ['3d' if inp.get('out3d') else '2d'] * k
+
+
+def head_exps(inp, j):
+    return [0] if oforms_of(inp)[j] == '1d' else out_exps(inp)
+
+
 def modes_of(inp):
     if 'modes' in inp:
         return [bool(t) for t in inp['modes']]
@@ -191,10 +208,18 @@ def run_impl(inp):
         x_rows[0] = [v - 1 for v in x_rows[0]]
     X, args = build(inp, x_rows)
     model = Recorder(width_of(inp), inp['kind'], inp['heads'], params=not inp.get('noparams'),
-                     out3d=bool(inp.get('out3d')))
+                     oforms=oforms_of(inp))
+    # leaves left over from an attribution / design step: X (and floating args) require grad
+    if inp.get('xgrad') and X.is_floating_point() and X.is_leaf:
+        X.requires_grad_(True)
+    if inp.get('agrad'):
+        seen = set()
+        for a in args:
+            if a.is_floating_point() and a.is_leaf and id(a) not in seen and a is not X:
+                seen.add(id(a))
+                a.requires_grad_(True)
     if not inp.get('noparams'):
         model = model.to(DTYPES[inp.get('mdtype', 'f32')])
-    oe = out_exps(inp)
     # the history of the module before the call: a training flag per module of model.modules()
     # (root, bn, drop) -- e.g. model.eval(); model.drop.train() gives [False, False, True]
     for m, t in zip(model.modules(), modes_of(inp)):
@@ -217,7 +242,7 @@ def run_impl(inp):
         with contextlib.redirect_stderr(io.StringIO()):
             return predict(model, X, args=pargs, **kw)
 
-    out = {'ok': False, 'ytype': None, 'y': None, 'meta': [], 'prelude_ok': True}
+    out = {'ok': False, 'ytype': None, 'y': None, 'meta': [], 'prelude_ok': True, 'detached': True}
     # earlier calls of the sequence: same module object, same X / args objects, another batch size
     X0, args0 = X.clone(), [a.clone() for a in args]
     for pre in inp.get('prelude', []):
@@ -237,11 +262,14 @@ def run_impl(inp):
     try:
         with torch.set_grad_enabled(bool(inp['grad0'])):
             y = call(inp['b'], inp.get('btype', 'int'))
+        nh = len(oforms_of(inp))
         if isinstance(y, torch.Tensor):
-            out.update(ok=True, ytype='T', y=rows_of(y, oe), meta=[(DCODE.get(y.dtype, 99), list(y.shape))])
+            out.update(ok=True, ytype='T', y=rows_of(y, head_exps(inp, 0)), meta=[(DCODE.get(y.dtype, 99), list(y.shape))],
+                       detached=not y.requires_grad and y.grad_fn is None)
         elif isinstance(y, (list, tuple)):
-            out.update(ok=True, ytype='M', y=[rows_of(h, oe) for h in y],
-                       meta=[(DCODE.get(h.dtype, 99), list(h.shape)) for h in y])
+            out.update(ok=True, ytype='M', y=[rows_of(h, head_exps(inp, min(j, nh - 1))) for j, h in enumerate(y)],
+                       meta=[(DCODE.get(h.dtype, 99), list(h.shape)) for h in y],
+                       detached=all(not h.requires_grad and h.grad_fn is None for h in y))
         else:
             out.update(ok=True, ytype='?', y=None)
     except Exception as e:
@@ -289,7 +317,8 @@ def coq_case(inp, out):
         kind, C.nat(inp['heads']), C.lst([C.boolean(t) for t in state]), C.boolean(inp['grad0']), C.z(eff_b(inp)),
         C.zmat(inp['X']), C.lst([C.zmat(arg_rows(inp, a)) for a in inp['args']]),
         C.natlist([DCODE[DTYPES[arg_dtype(inp, a)]] for a in inp['args']]),
-        C.nat(DCODE[torch.float64]), C.zlist([w, 1] if inp.get('out3d') else [w]))
+        C.nat(DCODE[torch.float64]),
+        C.lst([C.zlist({'1d': [], '2d': [w], '3d': [w, 1]}[f]) for f in oforms_of(inp)]))
     if not out['ok']:
         val = 'Err'
     elif out['ytype'] == 'T':
@@ -302,8 +331,9 @@ def coq_case(inp, out):
                                             C.lst([rows_lit(a) for a in t['args']]), C.natlist(t['adt']))
                    for t in out['trace']])
     meta = C.lst(['(%s, %s)' % (C.nat(d), C.zlist(sh)) for d, sh in out.get('meta', [])])
-    return '(%s, (%s, %s), %s, %s, %s)' % (call, val, trace, C.boolean(out['unchanged']),
-                                           C.boolean(out.get('buffers_unchanged', True)), meta)
+    return '(%s, (%s, %s), %s, %s, %s, %s)' % (call, val, trace, C.boolean(out['unchanged']),
+                                               C.boolean(out.get('buffers_unchanged', True)), meta,
+                                               C.boolean(out.get('detached', True)))
 
 
 def aligned(inp):
@@ -335,7 +365,10 @@ def hist_key(inp, out):
         rel = 'b|n' if n % b == 0 else 'b!|n'
     md = 'noparams' if inp.get('noparams') else inp.get('mdtype', 'f32')
     dts = 'same-dtype' if all(arg_dtype(inp, a) in (md, 'float') for a in inp['args']) else 'other-dtype'
-    opts = [k for k in ('views', 'out3d', 'verbose', 'mutate') if inp.get(k)]
+    opts = [k for k in ('views', 'verbose', 'mutate', 'xgrad', 'agrad') if inp.get(k)]
+    fo = set(oforms_of(inp))
+    if fo != {'2d'}:
+        opts.append('out-' + '+'.join(sorted(fo)))
     if inp['b'] is None:
         opts.append('b-default')
     if inp.get('btype', 'int') != 'int':
@@ -430,7 +463,11 @@ def make(rng, n, b, nargs, kind, misalign=None):
             'modes': pick_state(rng), 'grad0': rng.random() < 0.5, 'b': b,
             'mdtype': 'f64' if rng.random() < 0.15 else 'f32', 'noparams': noparams,
             'xdtype': rng.choice(['f32', 'f64']) if noparams else rng.choice(['f32'] * 6 + ['f64', 'i64', 'u8', 'i8']),
-            'views': rng.random() < 0.08, 'out3d': rng.random() < 0.1, 'verbose': rng.random() < 0.05,
+            'views': rng.random() < 0.08, 'verbose': rng.random() < 0.05,
+            # output shapes: mostly 2-D; 1-D (batch,) and 3-D outputs alone and next to each other
+            'oforms': [rng.choice(['2d'] * 7 + ['1d', '1d', '3d']) for _ in range(3)],
+            # X / floating args are leaves that require grad (left over from an attribution step)
+            'xgrad': rng.random() < 0.15, 'agrad': rng.random() < 0.08,
             'btype': rng.choice(['int'] * 8 + ['np64', 'np32']),
             'device_form': rng.choice(['str', 'str', 'obj']),
             'X': X, 'xshape': xshape, 'args': args,
@@ -511,7 +548,9 @@ def shrink(inp):
     if inp['b'] is not None and inp['b'] > 1:
         yield dict(inp, b=inp['b'] - 1)
         yield dict(inp, b=max(1, inp['b'] // 2))
-    for k in ('views', 'out3d', 'verbose', 'noparams'):
+    if any(f != '2d' for f in oforms_of(inp)):
+        yield dict(inp, oforms=['2d', '2d', '2d'], out3d=False)
+    for k in ('views', 'verbose', 'noparams', 'agrad'):
         if inp.get(k):
             yield dict(inp, **{k: False})
     if inp.get('prelude'):
